@@ -86,6 +86,7 @@ Proof.
   intros Hwf. unfold lit_parse, gen_lit_parse.
   destruct p as [|f [|fnl r]]; cbv zeta; cbn [nth_error]; rewrite ?skip1; cbn [nth_error]; try reflexivity.
   assert (Hf : 0 <= fnl) by (inversion Hwf as [|? ? _ H2]; inversion H2; lia).
-  rewrite ?skip1. rewrite py_upto_nonneg, py_from_nonneg by exact Hf.
+  rewrite ?skip1. destruct (len <? 6 + fnl); [reflexivity|].
+  rewrite py_upto_nonneg, py_from_nonneg by exact Hf.
   rewrite py_take_upto, py_drop_from. reflexivity.
 Qed.
